@@ -18,7 +18,8 @@ use vh::*;
 enum Kind {
     Snap,
     Lock,
-    Commit,
+    Log,
+    Publish,
     Unlock,
 }
 impl Kind {
@@ -26,7 +27,8 @@ impl Kind {
         match self {
             Kind::Snap => "ESnap",
             Kind::Lock => "ELock",
-            Kind::Commit => "ECommit",
+            Kind::Log => "ELog",
+            Kind::Publish => "EPublish",
             Kind::Unlock => "EUnlock",
         }
     }
@@ -35,13 +37,14 @@ fn kind_of_point(p: &str) -> Option<Kind> {
     match p {
         "capi.write.snapshot" | "capi.txn.snapshot" => Some(Kind::Snap),
         "capi.write.locked" | "capi.txn.locked" => Some(Kind::Lock),
-        "commit.run" => Some(Kind::Commit),
+        "commit.logged" => Some(Kind::Log),
+        "commit.run" => Some(Kind::Publish),
         "capi.write.done" | "capi.txn.done" => Some(Kind::Unlock),
         _ => None,
     }
 }
 const POINTS: &[&str] = &[
-    "capi.write.begin", "capi.write.snapshot", "capi.write.locked", "commit.run", "capi.write.done",
+    "capi.write.begin", "capi.write.snapshot", "capi.write.locked", "commit.logged", "commit.run", "capi.write.done",
     // explicit transactions (ndb_begin_write / ndb_txn_query / ndb_txn_commit) holding one statement
     "capi.txn.begin", "capi.txn.snapshot", "capi.txn.locked", "capi.txn.done",
 ];
@@ -270,61 +273,98 @@ fn drive(group: &[Kind], v0: i64, stmts: &[Vec<Stmt>], sched_prefix: &[usize], c
     Outcome { sched, trace, final_v, done, blocked, overlapped, anomaly }
 }
 
-/// Mutual-exclusion probe on the real code: while thread 0 is between `locked` and `done`, thread 1 is
-/// released towards its lock acquisition and must NOT reach `capi.write.locked` (it has to block inside
-/// begin_write); after thread 0 finished, thread 1 gets the lock by itself.
-fn probe_exclusion(group: &[Kind]) -> Result<(), String> {
-    let (_dir, db) = setup(0);
-    let baton = Baton::new(2);
-    baton.set_filter(0, POINTS);
-    baton.set_filter(1, POINTS);
-    baton.install();
-    let mut hs = vec![];
-    for t in 0..2 {
-        let d = db.clone();
-        hs.push(baton.spawn(t, move || {
-            d.exec("MATCH (n:C) SET n.c = n.c + 1").expect("exec");
-        }));
-    }
-    let lock_idx = group.iter().position(|k| *k == Kind::Lock).ok_or("no lock step")?;
-    let mut res = Ok(());
-    for t in 0..2 {
-        let _ = baton.wait_parked(t);
-    }
-    // thread 0: up to and including its lock step; thread 1: up to just before its lock step
-    for _ in 0..=lock_idx {
-        baton.step(0);
-    }
-    for _ in 0..lock_idx {
-        baton.step(1);
-    }
-    match baton.step_probe(1, std::time::Duration::from_millis(400)) {
-        Reached::Stuck => {}
-        r => res = Err(format!("second writer was not blocked while the first holds the writer lock: reached {:?}", r)),
-    }
-    if res.is_ok() {
-        for _ in lock_idx + 1..group.len() {
-            baton.step(0);
+/// Points of a statement at which the FIRST writer is parked while a second writer is released towards its lock
+/// acquisition; the second one must stay blocked at every one of them (the writer lock covers the whole statement,
+/// in particular the publication of the run) and gets the lock once the first statement is done.
+const PROBE_POINTS: &[&str] = &["capi.write.locked", "capi.write.snapshot", "commit.logged", "commit.idmap", "commit.node_labels", "commit.run"];
+
+/// Returns the index in PROBE_POINTS of the first point at which the second writer was NOT blocked
+/// (None = blocked everywhere, i.e. the lock is released after the run is published).
+fn probe_unlock_position(group: &[Kind]) -> (Option<usize>, Vec<String>) {
+    let lock_first = group.first() == Some(&Kind::Lock);
+    let mut errors = vec![];
+    let mut first_open = None;
+    for (i, p) in PROBE_POINTS.iter().enumerate() {
+        if !lock_first && *p == "capi.write.snapshot" {
+            continue;
         }
-        baton.step(0); // back to harness code / finish
-        match baton.wait_parked_for(1, std::time::Duration::from_secs(20)) {
-            Reached::Parked("capi.write.locked") => {}
-            r => res = Err(format!("after the first writer finished the second reached {:?} instead of acquiring the lock", r)),
+        let (_dir, db) = setup(0);
+        let baton = Baton::new(2);
+        let all: Vec<&'static str> = POINTS.iter().copied().chain(["commit.idmap", "commit.node_labels"]).collect();
+        baton.set_filter(0, &all);
+        baton.set_filter(1, POINTS);
+        baton.install();
+        let mut hs = vec![];
+        for t in 0..2 {
+            let d = db.clone();
+            hs.push(baton.spawn(t, move || {
+                d.exec("MATCH (n:C) SET n.c = n.c + 1").expect("exec");
+            }));
         }
-    }
-    baton.free_run();
-    for h in hs {
-        let _ = h.join();
-    }
-    Baton::uninstall();
-    if res.is_ok() {
-        let v = read_counter(&db)?;
-        if v != 2 {
-            res = Err(format!("exclusion probe: counter {} after two increments", v));
+        for t in 0..2 {
+            let _ = baton.wait_parked(t);
         }
+        // first writer up to P
+        let mut reached = false;
+        for _ in 0..10 {
+            match baton.step(0) {
+                Reached::Parked(q) if q == *p => {
+                    reached = true;
+                    break;
+                }
+                Reached::Parked(_) => {}
+                _ => break,
+            }
+        }
+        if !reached {
+            errors.push(format!("probe: the first writer never reached {}", p));
+        } else {
+            // second writer: everything before its lock acquisition, then the acquisition with a short timeout
+            let lock_idx = group.iter().position(|k| *k == Kind::Lock).unwrap_or(0);
+            for _ in 0..lock_idx {
+                baton.step(1);
+            }
+            match baton.step_probe(1, std::time::Duration::from_millis(300)) {
+                Reached::Stuck => {}
+                r => {
+                    if first_open.is_none() {
+                        first_open = Some(i);
+                    }
+                    errors.push(format!("a second writer got the writer lock (reached {:?}) while the first statement is parked at {}: the lock does not cover the statement up to the publication of its run", r, p));
+                }
+            }
+        }
+        baton.free_run();
+        for h in hs {
+            let _ = h.join();
+        }
+        Baton::uninstall();
+        match read_counter(&db) {
+            Ok(2) => {}
+            other => errors.push(format!("probe at {}: counter {:?} after two increments (lost update)", p, other)),
+        }
+        teardown(db);
     }
-    teardown(db);
-    res
+    (first_open, errors)
+}
+
+/// the observed program order: lock, snapshot, log, publish from the calibration run; the unlock where the probes found it
+fn observed_group(point_order: &[Kind], first_open: Option<usize>) -> Vec<Kind> {
+    let mut g: Vec<Kind> = point_order.iter().copied().filter(|k| *k != Kind::Unlock).collect();
+    let before = match first_open {
+        None => None,                                     // released after the run is published
+        Some(i) => match PROBE_POINTS[i] {
+            "capi.write.locked" | "capi.write.snapshot" => Some(Kind::Snap),
+            "commit.logged" => Some(Kind::Log),
+            "commit.idmap" | "commit.node_labels" => Some(Kind::Publish),
+            _ => None,                                    // at commit.run: after the publication
+        },
+    };
+    match before.and_then(|k| g.iter().position(|x| *x == k)) {
+        Some(pos) => g.insert(pos, Kind::Unlock),
+        None => g.push(Kind::Unlock),
+    }
+    g
 }
 
 fn stress(threads: usize, per: usize) -> (i64, i64, f64) {
@@ -392,27 +432,38 @@ fn main() {
             std::process::exit(0);
         }
     };
-    *hist.entry(format!("program_order:{:?}", group)).or_insert(0) += 1;
+    *hist.entry(format!("point_order:{:?}", group)).or_insert(0) += 1;
+    // where is the writer lock released?  a second writer is released at every point of the first one
+    let (first_open, probe_errors) = probe_unlock_position(&group);
+    *hist.entry(format!("unlock_probes:{}", if probe_errors.is_empty() { "second writer blocked at all points" } else { "NOT blocked" })).or_insert(0) += 1;
+    for e in &probe_errors {
+        fails += 1;
+        rep.fail(0, None, e, json!({"phase": "writer-lock probe"}));
+    }
+    let observed = observed_group(&group, first_open);
+    *hist.entry(format!("program_order:{:?}", observed)).or_insert(0) += 1;
 
     // ---- case list: corpus, exhaustive small, generated
     let mut cases: Vec<(String, i64, Vec<Vec<Stmt>>, Vec<usize>, bool)> = vec![];
     let two_incs = vec![vec![Stmt::Add(1)], vec![Stmt::Add(1)]];
     // witness of the repaired defect (snapshot before lock): both threads take their first step, then run one after the other
-    cases.push(("corpus:lost-update-witness".into(), 0, two_incs.clone(), vec![0, 1, 0, 0, 0, 1, 1, 1], true));
+    cases.push(("corpus:lost-update-witness".into(), 0, two_incs.clone(), vec![0, 1, 0, 0, 0, 0, 1, 1, 1, 1], true));
+    // the schedule of the early-unlock witness (Conc/AutoCommit_proofs.v): with the lock held up to the end it is harmless
+    cases.push(("corpus:early-unlock-witness".into(), 0, two_incs.clone(), vec![0, 0, 0, 0, 1, 1, 1, 0, 1, 1], true));
     cases.push(("corpus:three-way".into(), 0, vec![vec![Stmt::Add(1)]; 3], vec![0, 1, 2, 2, 1, 0, 0, 0, 1, 1, 2, 2], true));
-    for s in interleavings(&[4, 4]) {
+    for s in interleavings(&[5, 5]) {
         cases.push(("exhaustive:2x1".into(), 0, two_incs.clone(), s, true));
     }
     let cond = vec![vec![Stmt::Cond(0, 7)], vec![Stmt::Cond(0, 9)]];
-    for (i, s) in interleavings(&[4, 4]).into_iter().enumerate() {
-        if i % 5 == 0 {
+    for (i, s) in interleavings(&[5, 5]).into_iter().enumerate() {
+        if i % 18 == 0 {
             cases.push(("exhaustive-sample:2x1-cond".into(), 0, cond.clone(), s, true));
         }
     }
     while cases.len() < a.n {
         let n = 2 + r.below(3) as usize;
         let stmts: Vec<Vec<Stmt>> = (0..n).map(|_| (0..1 + r.below(3)).map(|_| gen_stmt(&mut r)).collect()).collect();
-        let total: usize = stmts.iter().map(|s| s.len() * 4).sum();
+        let total: usize = stmts.iter().map(|s| s.len() * 5).sum();
         let len = match r.below(4) {
             0 => r.below(total as u64 + 1) as usize, // a prefix: nothing is completed afterwards
             _ => total + r.below(total as u64 / 2 + 1) as usize,
@@ -470,7 +521,7 @@ fn main() {
             let mut v = v0;
             let mut commits = 0;
             for (t, k) in &o.trace {
-                if *k == Kind::Commit {
+                if *k == Kind::Publish {
                     v = stmts[*t][next[*t]].eval(v);
                     next[*t] += 1;
                     commits += 1;
@@ -490,7 +541,7 @@ fn main() {
         // carries the model-independent trace only
         cw.push(format!(
             "{{| observed_group := {}; v0 := {}; stmts := {}; sched := {}; impl_trace := {}; impl_final := {}; impl_done := {} |}}",
-            coq_list(&group, |k| k.coq().to_string()),
+            coq_list(&observed, |k| k.coq().to_string()),
             coq_z(v0 as i128),
             coq_list(&stmts, |t| coq_list(t, |s| s.coq())),
             coq_list(&o.sched, |t| format!("{}%nat", t)),
@@ -502,12 +553,6 @@ fn main() {
     }
     cw.flush();
 
-    // ---- the writer lock really blocks a second writer (the driver above only models it)
-    if let Err(e) = probe_exclusion(&group) {
-        fails += 1;
-        rep.fail(idx, None, &e, json!({"phase": "exclusion-probe"}));
-    }
-    *hist.entry("exclusion_probe".into()).or_insert(0) += 1;
 
     // ---- free-running stress (the search)
     let per = a.extra.iter().position(|x| x == "--stress").and_then(|i| a.extra.get(i + 1)).and_then(|s| s.parse().ok()).unwrap_or(200usize);
@@ -522,7 +567,7 @@ fn main() {
     rep.stats(json!({
         "evaluations": idx,
         "distinct_nontrivial": nontrivial.len(),
-        "rule": "driven schedules of 2-4 threads x 1-3 read-modify-write statements through ndb_execute_write (corpus witness, all 70 interleavings of 2x1 increments, 14 of 2x1 conditional sets, generated bursty schedules incl. prefixes and ids without a thread); non-trivial = some thread was scheduled while another was inside a statement (contended lock or overlapping steps), distinct by (statements, executed schedule)",
+        "rule": "driven schedules of 2-4 threads x 1-3 read-modify-write statements through ndb_execute_write (corpus witness, all 252 interleavings of 2x1 increments, 14 of 2x1 conditional sets, generated bursty schedules incl. prefixes and ids without a thread); non-trivial = some thread was scheduled while another was inside a statement (contended lock or overlapping steps), distinct by (statements, executed schedule)",
         "histogram": hist,
         "direct_failures": fails,
         "stress": {"threads": 8, "per_thread": per, "final": v, "successful": ok, "seconds": secs},
